@@ -1,7 +1,7 @@
 //@ tu: libxcm/tp/tls/xcm_tp_btls.c
 //@ enforce: btls_cleanup
 //@ props: C08 C18
-//@ expect: postcondition>=7 canary=4
+//@ expect: postcondition>=6 canary=4
 /* btls_cleanup (xcm_cleanup in a forked child) with the REAL deinit/conn_deinit inlined */
 #include "_unit.h"
 void harness(void)
